@@ -71,7 +71,7 @@ PROPS = {
         "trusted": COMMON_TRUST + ["serde / serde_bytes / torrust-serde-bencode behaviour is part of the hand-written decoder model (validated differentially, incl. a malformed stream)",
                                    "two syntactic classes are declared unmodelled and excluded from the verdict comparison: a list where a struct is expected; y/q given a dictionary"],
         "assumptions": ["byte strings shorter than 2^64 (datagrams are <= 64 KiB)"],
-        "level_note": "byte-level round trip (any trailing bytes), encoder totality, sorted keys, literal templates and the rejections are proved for the whole message space; invariance under key reordering/unknown keys is decided by the tie only so far (partial)",
+        "level_note": "byte-level round trip (any trailing bytes), encoder totality, sorted keys, literal templates, the rejections, and the invariance under key reordering and unknown keys at every level (C13_reorder_unknown: every variant of the encoding — pairs in any order, further pairs under keys that are no field names of their level, arbitrary well-formed values within the pre-scan depth — decodes to the same message) are proved for the whole message space",
     },
     "C14": {
         "engines": [{"name": "codec", "quick": 40, "thorough": 1500, "oracle_tag": "C14", "op_filter": ["dec"]},
